@@ -183,6 +183,9 @@ def _main(mod, modname, prop, tier, seed, only, workdir, t0, no_canaries):
         for u in r["unsupported"]:
             inconclusive.append("%s: %s" % (r["label"], u))
         for f in r["failures"]:
+            if f["obligation"].startswith("ORACLE."):
+                inconclusive.append("%s: oracle self-check failed: %s %s" % (r["label"], f["obligation"], f["model"]))
+                continue
             key = (f["obligation"],)
             if key in seen_oblig and len(violations) >= 8:
                 continue
